@@ -18,12 +18,37 @@ mod findings;
 
 use report::Report;
 
+/// A panic of the real code in the middle of a search (a debug assertion, an `unwrap`, an arithmetic overflow introduced by a
+/// change) is a failing case like any other: it is caught, reported with message and location, and reproduces on replay because the
+/// enumeration is deterministic.  On the unchanged tree no search or stand-in panics.
+static PANIC_MSG: std::sync::Mutex<String> = std::sync::Mutex::new(String::new());
+fn install_panic_hook() {
+    std::panic::set_hook(Box::new(|info| {
+        let loc = info.location().map(|l| format!("{}:{}", l.file(), l.line())).unwrap_or_default();
+        let msg = if let Some(s) = info.payload().downcast_ref::<&str>() { s.to_string() } else if let Some(s) = info.payload().downcast_ref::<String>() { s.clone() } else { "panic".to_string() };
+        if let Ok(mut g) = PANIC_MSG.lock() { if g.is_empty() { *g = format!("panicked at {}: {}", loc, msg); } }
+    }));
+}
+fn guarded(r: &mut Report, f: &mut dyn FnMut(&mut Report) -> bool) -> bool {
+    let res = std::panic::catch_unwind(std::panic::AssertUnwindSafe(|| f(r)));
+    match res {
+        Ok(k) => k,
+        Err(_) => {
+            let n = r.cases + 1;
+            let msg = PANIC_MSG.lock().map(|g| g.clone()).unwrap_or_default();
+            r.case("no_panic", false, &|| format!("case #{} of the deterministic enumeration (the code under test panicked while this case was being run)", n), &|| msg.clone());
+            true
+        }
+    }
+}
+
 fn main() {
     let args: Vec<String> = std::env::args().collect();
     if args.len() < 3 {
         println!("{{\"error\": \"usage: replay standin|finding|search|replay <name> [tier] [seed]\"}}");
         return;
     }
+    install_panic_hook();
     let tier = args.get(3).map(|s| s.as_str()).unwrap_or("quick").to_string();
     let seed: u64 = args.get(4).and_then(|s| s.parse().ok()).unwrap_or(0);
     let out = match args[1].as_str() {
@@ -39,7 +64,7 @@ fn main() {
 
 fn run_named(name: &str, tier: &str, seed: u64, standin: bool) -> String {
     let mut r = Report::new(name);
-    let known = match (standin, name) {
+    let known = guarded(&mut r, &mut |r: &mut Report| { let mut r = r; match (standin, name) {
         (true, "vclock_iter") => { c10::standin_vclock_iter(&mut r); true }
         (false, "c10") => { c10::search(&mut r, tier, seed); true }
         (true, "gset_merge") => { c11::standin_gset_merge(&mut r); true }
@@ -48,6 +73,7 @@ fn run_named(name: &str, tier: &str, seed: u64, standin: bool) -> String {
         (false, "c06") => { c06::search(&mut r, tier, seed); true }
         (false, "c05") => { c05::search(&mut r, tier, seed); true }
         (false, "c05mo") => { c05::search_mo(&mut r, tier, seed); true }
+        (false, "c05v") => { c05::search_val(&mut r, tier, seed); true }
         (true, "map_iters") => { c05::standin_map_iters(&mut r); true }
         (true, "orswot_iter") => { c04::standin_orswot_iter(&mut r); true }
         (true, "identifier_between") => { c12::standin_identifier_between(&mut r, tier); true }
@@ -60,7 +86,7 @@ fn run_named(name: &str, tier: &str, seed: u64, standin: bool) -> String {
         (false, "c18") => { c17::search_c18(&mut r, tier); true }
         (false, "c07") => { c17::search_c07(&mut r, tier); true }
         _ => false,
-    };
+    } });
     if !known {
         return format!("{{\"error\": \"unknown {} {}\"}}", if standin { "standin" } else { "search" }, name);
     }
@@ -80,13 +106,14 @@ fn replay_file(path: &str) -> String {
     let mut r = Report::new(search);
     r.want = Some((check.to_string(), input.to_string()));
     let sd = cex["seed"].as_u64().unwrap_or(0);
-    let known = match search {
+    let known = guarded(&mut r, &mut |r: &mut Report| { let mut r = r; match search {
         "c10" => { c10::search(&mut r, "thorough", sd); true }
         "c11" => { c11::search(&mut r, "thorough", sd); true }
         "c04" => { c04::search(&mut r, "thorough", sd); true }
         "c06" => { c06::search(&mut r, "thorough", sd); true }
         "c05" => { c05::search(&mut r, "thorough", cex["seed"].as_u64().unwrap_or(0)); true }
         "c05mo" => { c05::search_mo(&mut r, "thorough", cex["seed"].as_u64().unwrap_or(0)); true }
+        "c05v" => { c05::search_val(&mut r, "thorough", cex["seed"].as_u64().unwrap_or(0)); true }
         "map_iters" => { c05::standin_map_iters(&mut r); true }
         "orswot_iter" => { c04::standin_orswot_iter(&mut r); true }
         "gset_merge" => { c11::standin_gset_merge(&mut r); true }
@@ -101,7 +128,7 @@ fn replay_file(path: &str) -> String {
         "c18" => { c17::search_c18(&mut r, "thorough"); true }
         "c07" => { c17::search_c07(&mut r, "thorough"); true }
         _ => false,
-    };
+    } });
     if !known { return format!("{{\"error\": \"unknown search {}\"}}", search); }
     format!("{{\"reproduced\": {}, \"check\": {:?}, \"input\": {:?}, \"detail\": {:?}}}", r.want_hit.is_some(), check, input, r.want_hit.unwrap_or_default())
 }
